@@ -299,6 +299,9 @@ def df_event(name, mk):
             continue
         col = df.iloc[:, j - 1].values
         ok = ok and len(col) == len(c.data) and all(same(a, b) for a, b in zip(c.data, col))
+        if np.asarray(c.data).dtype.kind == "f":
+            # "equal values": the samples of a float curve are numbers in the frame as well, not their spellings
+            ok = ok and all(isinstance(b, (int, float, np.integer, np.floating)) and not isinstance(b, (bool, np.bool_)) for b in col)
     ev["values_ok"] = bool(ok)
     las2 = mk()
     before = [np.array(c.data) for c in list.__iter__(las2.curves)]
